@@ -1243,6 +1243,25 @@ func (s *BgpServer) processOutgoingPaths(peer *peer, paths, olds []*table.Path) 
 	return outgoing
 }
 
+// withdrawalsOfFiltered returns the withdrawals for the paths that are filtered
+// towards the peer now (e.g. by a changed export policy) but had been advertised.
+func withdrawalsOfFiltered(peer *peer, filtered []*table.Path) []*table.Path {
+	withdrawals := make([]*table.Path, 0, len(filtered))
+	for _, path := range filtered {
+		if path == nil || path.IsEOR() {
+			continue
+		}
+		if !peer.IsFamilyEnabled(path.GetFamily()) {
+			continue
+		}
+		if !peer.hasPathAlreadyBeenSent(path) {
+			continue
+		}
+		withdrawals = append(withdrawals, path.Clone(true))
+	}
+	return withdrawals
+}
+
 func (s *BgpServer) handleRouteRefresh(peer *peer, e *fsmMsg) {
 	m := e.MsgData.(*bgp.BGPMessage)
 	rr := m.Body.(*bgp.BGPRouteRefresh)
@@ -1262,6 +1281,8 @@ func (s *BgpServer) handleRouteRefresh(peer *peer, e *fsmMsg) {
 	}
 	rfList := []bgp.Family{rf}
 	s.getBestFromLocalCallback(peer, rfList, true, true, func(paths []*table.Path, filtered []*table.Path) {
+		// as for a soft reset out: what the export policy rejects now is withdrawn
+		paths = append(withdrawalsOfFiltered(peer, filtered), paths...)
 		if len(paths) > 0 {
 			peer.updateRoutes(paths...)
 			sendfsmOutgoingMsg(peer, paths)
@@ -2929,20 +2950,7 @@ func (s *BgpServer) softResetOut(addr string, family bgp.Family, deferral bool) 
 		s.getBestFromLocalCallback(peer, families, true, true, func(paths []*table.Path, filtered []*table.Path) {
 			if len(filtered) > 0 && !deferral {
 				// withdraw paths that export policy now rejects
-				withdrawals := make([]*table.Path, 0, len(filtered))
-				for _, path := range filtered {
-					if path == nil || path.IsEOR() {
-						continue
-					}
-					if !peer.IsFamilyEnabled(path.GetFamily()) {
-						continue
-					}
-					if !peer.hasPathAlreadyBeenSent(path) {
-						continue
-					}
-					withdrawals = append(withdrawals, path.Clone(true))
-				}
-				paths = append(withdrawals, paths...)
+				paths = append(withdrawalsOfFiltered(peer, filtered), paths...)
 			}
 			if len(paths) > 0 {
 				if deferral {
